@@ -3498,4 +3498,16 @@ impl EGraph {
             .map(|_| ())
             .map_err(|e| format!("{e:?}"))
     }
+
+    /// Verification hook (compiled only with `--cfg egglog_verif`): the rules of the original,
+    /// un-instrumented program that proofs are checked against, in program order.
+    pub fn verif_proof_rules(&self) -> Vec<ast::GenericRule<ResolvedCall, ResolvedVar>> {
+        self.proof_check_program
+            .iter()
+            .filter_map(|cmd| match cmd {
+                ast::GenericNCommand::NormRule { rule } => Some(rule.clone()),
+                _ => None,
+            })
+            .collect()
+    }
 }
